@@ -12,8 +12,9 @@
 (* A token is a triple <<k, v, nl>>: k is the token kind, one of           *)
 (*   "Num" "Str" "Id" "Kw" "typeof" "Unknown" or the operator /            *)
 (*   punctuation lexeme itself ("(", "===", "!.", ...);                    *)
-(* v is the lexeme (for "Str": the decoded value); nl is TRUE when a line  *)
-(* break precedes the token.                                               *)
+(* v is the lexeme (for "Str": the decoded value, for "Num": the decimal   *)
+(* number <<neg, digits, exp>> it denotes); nl is TRUE when a line break   *)
+(* precedes the token.                                                     *)
 (*                                                                         *)
 (* Trees:  <<"Lit", k, v>>  <<"Id", name>>  <<"Paren", e>>  <<"Arr", es>>  *)
 (*   <<"Sel", e, name, assert>>  <<"Call", e, args, spread>>               *)
